@@ -312,6 +312,20 @@ fn gen_case(seed: u64) -> Case
 		6 | 7 | 8 =>
 		{
 			shape = "flash boot sector";
+			if g.rng.chance(1, 4)
+			{
+				// the first flash page is touched but 0x10000000 itself is NOT occupied: not a boot sector — no checksum word is
+				// inserted (the padding zeros at 0x10000000 are not program bytes) and data at 0x100000FC..FF is no reason to refuse
+				let off = 1 + g.rng.below(0xFF);
+				let room = (0x100 - off) as usize;
+				let l2 = match g.rng.below(5) {0 => room, 1 => 1, 2 => room + 1 + g.rng.below(300) as usize, 3 => room.min(4), _ => 1 + g.rng.below(room as u64) as usize};
+				let a2 = if g.rng.chance(1, 3) {0x1000_00FC + g.rng.below(4)} else {0x1000_0000 + off};
+				let l2 = if a2 >= 0x1000_00FC && g.rng.chance(1, 2) {1 + g.rng.below(3) as usize} else {l2};
+				regions.push(Region{addr: a2, items: Vec::new()});
+				regions[0].items = g.items_exact(l2, 1);
+			}
+			else
+			{
 			let l = match g.rng.below(10)
 			{
 				0 => 1, 1 => 251, 2 | 3 => 252, 4 => 253, 5 => 256, 6 => 257 + g.rng.below(300) as usize,
@@ -344,6 +358,7 @@ fn gen_case(seed: u64) -> Case
 			if g.rng.chance(1, 4) {regions.push(Region{addr: 0x2000_0000 + g.rng.below(512), items: Vec::new()}); lens.push(small(&mut g));}
 			let n = regions.len();
 			for k in 0..n {regions[k].items = g.items_exact(lens[k], n);}
+			}
 		},
 		9 | 10 =>
 		{
